@@ -165,7 +165,8 @@ fn corpus(cx: &mut Ctx, rng: &mut Rng) {
     let s = ["b", "d", "b", "f", "d", "b", "f", "d"].iter().map(|x| Cell::Str(x.to_string())).collect::<Vec<_>>();
     let n = vec![Cell::Int(1), Cell::Null, Cell::Int(30), Cell::Null, Cell::Null, Cell::Int(7), Cell::Null, Cell::Null];
     let x = [3i64, -5, 100, 7, 8, 9, 10, 11].iter().map(|v| Cell::Int(*v)).collect::<Vec<_>>();
-    let t = table_of(vec![(ColType::Str("lowcard"), s), (ColType::Int("small"), n), (ColType::Int("u8off"), x)]);
+    let pk = (0..8).map(|i| Cell::Str(format!("q{}", i))).collect::<Vec<_>>();
+    let t = table_of(vec![(ColType::Str("lowcard"), s), (ColType::Int("small"), n), (ColType::Int("u8off"), x), (ColType::Str("highcard"), pk)]);
     for flush in [false, true] {
         let r = single(8, flush, rng);
         let mut live = build(&t, &r);
@@ -188,6 +189,13 @@ fn corpus(cx: &mut Ctx, rng: &mut Rng) {
                 cx.run(&mut live, &t, &r, &cmp(op, Ex::Col(3), Ex::Lit(Cell::Int(c))), &format!("corpus:encode-int{}", op));
             }
         }
+        // one string literal compared with a dictionary column and with a packed column (open finding C03-shared-str-const-panic)
+        for (a, b, cl) in [("b", "b", "shared-literal"), ("q1", "q1", "shared-literal"), ("b", "q1", "distinct-literals")] {
+            let pa = cmp("=", Ex::Col(4), sc(a));
+            let sb = cmp("<>", Ex::Col(1), sc(b));
+            cx.run(&mut live, &t, &r, &Ex::And(Box::new(pa.clone()), Box::new(sb.clone())), &format!("corpus:{}", cl));
+            cx.run(&mut live, &t, &r, &Ex::Or(Box::new(sb.clone()), Box::new(pa.clone())), &format!("corpus:{}", cl));
+        }
         // constant and non-boolean WHERE expressions: 0 is false, other integers true, NULL literal / non-boolean = error value
         for (e, cl) in [(Ex::Lit(Cell::Int(0)), "const:0"), (Ex::Lit(Cell::Int(1)), "const:1"), (Ex::Lit(Cell::Int(2)), "const:2"), (Ex::Lit(Cell::Int(-1)), "const:-1"),
             (Ex::Lit(Cell::Null), "const:null"), (Ex::Lit(Cell::f(1.5)), "const:float"), (Ex::Lit(Cell::Str("a".into())), "const:str"),
@@ -201,13 +209,13 @@ fn corpus(cx: &mut Ctx, rng: &mut Rng) {
         let mut r2 = r.clone(); r2.omit_null_cols = true; r2.pref = 2;
         let mut live2 = build(&t2, &r2);
         for op in CMP_OPS {
-            let a = cmp(op, Ex::Col(4), Ex::Lit(Cell::Int(3)));
+            let a = cmp(op, Ex::Col(5), Ex::Lit(Cell::Int(3)));
             cx.run(&mut live2, &t2, &r2, &a, &format!("corpus:absent{}", op));
             cx.run(&mut live2, &t2, &r2, &Ex::And(Box::new(a.clone()), Box::new(id5.clone())), &format!("corpus:absent{}-and", op));
             cx.run(&mut live2, &t2, &r2, &Ex::Or(Box::new(id5.clone()), Box::new(a.clone())), &format!("corpus:absent{}-or", op));
         }
-        cx.run(&mut live2, &t2, &r2, &Ex::IsNull(Box::new(Ex::Col(4))), "corpus:absent-isnull");
-        cx.run(&mut live2, &t2, &r2, &Ex::NotNull(Box::new(Ex::Col(4))), "corpus:absent-notnull");
+        cx.run(&mut live2, &t2, &r2, &Ex::IsNull(Box::new(Ex::Col(5))), "corpus:absent-isnull");
+        cx.run(&mut live2, &t2, &r2, &Ex::NotNull(Box::new(Ex::Col(5))), "corpus:absent-notnull");
     }
 }
 
@@ -361,7 +369,7 @@ fn main() {
     quiet_panics();
     let mut rng = Rng::new(args.seed);
     let thorough = args.thorough();
-    let mut cx = Ctx { cases: Cases::create(&args.out), t0: Instant::now(), budget_s: if thorough { 1200 } else { 60 }, rebuilds: 0 };
+    let mut cx = Ctx { cases: Cases::create(&args.out), t0: Instant::now(), budget_s: if thorough { 420 } else { 60 }, rebuilds: 0 };
     corpus(&mut cx, &mut rng);
     // interleave the directed classes with random tables so that every kind gets its share of the time budget
     let rounds = if thorough { 40 } else { 12 };
